@@ -529,9 +529,38 @@ def _noise(E: Engine, rep: Report) -> None:
     # PAIR: /1e6 in __post_init__ with *1e6 in to_noise_model
     pi = P.lookup_method(sc, "__post_init__")[0]
     tn = P.lookup_method(sc, "to_noise_model")[0]
-    div = any(isinstance(n, ast.BinOp) and isinstance(n.op, ast.Div) and norm(n.right) in ("1000000.0", "1e6", "1000000") and "temperature" in norm(n.left) for n in ast.walk(pi.node))
-    mul = any(isinstance(n, ast.AugAssign) and isinstance(n.op, ast.Mult) and norm(n.value) in ("1000000.0", "1e6", "1000000") and "temperature" in norm(n.target) for n in ast.walk(tn.node)) or any(
-        isinstance(n, ast.BinOp) and isinstance(n.op, ast.Mult) and "temperature" in norm(n) and ("1000000.0" in norm(n) or "1e6" in norm(n)) for n in ast.walk(tn.node))
+    # (decided on the normal form: literals and private module constants fold to the same number, `x /= c` is `x * 1/c`)
+    def _temp_factors(fn_, want_div: bool) -> set:
+        from .. import sym as _sym
+
+        out = set()
+        for l in _S(E, fn_).log:
+            for v in (l.value,):
+                if v is None or l.kind not in ("call", "store", "aug", "assign"):
+                    continue
+                for t in _subterms_(v):
+                    if t[0] != "mul" or not any("temperature" in _show_(f)[:200] for f in t[1:]):
+                        continue
+                    for f in t[1:]:
+                        if want_div and f[0] == "bin" and f[1] == "Div" and f[2] == ("const", 1) and f[3][0] == "const":
+                            out.add(float(f[3][1]))
+                        if want_div and f[0] == "pow" and len(f) == 3 and f[1][0] == "const" and f[2] == ("const", -1):
+                            out.add(float(f[1][1]))
+                        if not want_div and f[0] == "const" and isinstance(f[1], (int, float)) and not isinstance(f[1], bool) and f[1] > 1:
+                            out.add(float(f[1]))
+            if l.kind == "aug" and l.op in ("Mult", "Div") and l.target is not None and (_sym.contains(l.target, ("const", "temperature")) or any(t[0] == "attr" and t[2] == "temperature" for t in _subterms_(l.target))) and l.value is not None and l.value[0] == "const":
+                if (l.op == "Div") == want_div:
+                    out.add(float(l.value[1]))
+        return out
+
+    fd_, fm_ = _temp_factors(pi, True), _temp_factors(tn, False)
+    if not fd_:
+        # the shown form of a division: x*1/(c)
+        import re as _re17
+        for l in _S(E, pi).log:
+            if l.value is not None and "temperature" in _show_(l.value)[:300]:
+                fd_ |= {float(m_) for m_ in _re17.findall(r"temperature\*1/\(([0-9.e+]+)\)", _show_(l.value)[:300])}
+    div, mul = 1e6 in fd_, 1e6 in fm_
     rep.check(div == mul and div, "PAIR", "SimConfig|temperature-unit-conversion", "µK->K on construction is paired with K->µK in to_noise_model", f"temperature conversion unpaired: /1e6 in __post_init__={div}, *1e6 in to_noise_model={mul}", E.where(tn))
     rep.floor("PAIR", 1)
 
